@@ -129,9 +129,9 @@ def _simple(prop, P, nq, nt, mc=True):
 
 QOPS = dict(step=40, dispatch=0, post=25, defer=10, recall=10, is_in=2, child=1, scribble=3, clear_spy=1, clear_trace=1, empty_rtc=8)
 c14 = _simple("C14", gen.profile(hosts=(("queued", 1),), p_eff=0.5, live=0.0, clocks=("fine",), nops=(6, 16), w_ops=QOPS,
-                                 caps=(2, 3, 500)), 2500, 40000)
+                                 caps=(2, 3, 500), p_fault=0.15), 2500, 40000)
 c15 = _simple("C15", gen.profile(hosts=(("queued", 1),), p_eff=0.5, live=0.0, clocks=("fine",), nops=(6, 16),
-                                 w_ops=dict(QOPS, defer=25, recall=25), caps=(2, 3, 500)), 2500, 40000)
+                                 w_ops=dict(QOPS, defer=25, recall=25), caps=(2, 3, 500), p_fault=0.1), 2500, 40000)
 c19 = _simple("C19", gen.profile(hosts=(("queued", 6), ("instr", 2)), p_spied=1.0, p_eff=0.5, live=0.0, clocks=("fine",),
                                  nops=(4, 14), w_ops=dict(QOPS, dispatch=8, scribble=8, is_in=5, child=3)), 2500, 40000)
 c20 = _simple("C20", gen.profile(hosts=(("queued", 6), ("instr", 2)), p_spied=1.0, p_eff=0.3, live=0.0, clocks=("fine",),
